@@ -94,6 +94,16 @@ class World(object):
         return sum(c.shape[0] for c in m["chunks"])
 
 
+def _handed(w, op, tab):
+    """the chunk as the caller hands it to the writer: 1-d, or (rarely) the same rows as a C-contiguous 2-d array
+    (rows in C order) -- esutil writes data.size rows either way"""
+    nd = op.get("nd")
+    if nd and tab.ndim == 1 and tab.shape[0] == nd[0] * nd[1] and nd[0] > 1 and nd[1] > 1:
+        w.run.fault("chunk_handed_over_as_2d_array")
+        return tab.reshape(nd[0], nd[1])
+    return tab
+
+
 def _fstate(m):
     if m is None:
         return "unusable"
@@ -437,7 +447,7 @@ def op_create(w, op, mods):
     if tab.nbytes > 70000:
         run.fault("table_larger_than_stdio_buffer")
     guard = None
-    arg = tab
+    arg = _handed(w, op, tab)
     if w.prop == "C15":
         arg, guard = present.make(tab, op.get("present"))
     m = {"form": form, "delim": delim, "dtype": tab.dtype, "hdr": hdr if form == "sfile" else None,
@@ -738,7 +748,7 @@ def op_write(w, op, mods):
     feats = _feat(m, kind=h["kind"], mode=h["mode"], via="handle")
     st = _fstate(m) + "|h=%s:%s:%s" % (h["kind"], h["mode"], h["last"])
     hdr = op.get("hdr")
-    arg, guard = tab, None
+    arg, guard = _handed(w, op, tab), None
     if w.prop == "C15":
         arg, guard = present.make(tab, op.get("present"))
     try:
@@ -905,7 +915,7 @@ def op_append(w, op, mods):
         run.fault("writer_option_" + "+".join(sorted(op["wopts"])))
     feats = _feat(m, entry=entry, exists=exists) if m else {"form": "none", "text": bool(delim), "entry": entry, "exists": False}
     st = _fstate(m) if exists else "absent"
-    arg, guard = tab, None
+    arg, guard = _handed(w, op, tab), None
     if w.prop == "C15":
         arg, guard = present.make(tab, op.get("present"))
     try:
